@@ -6,13 +6,16 @@
      - indentation (blanks, tabs, carriage returns; no newline) between an attached comment and
        its key: it belongs, with the newline that ends the comment, to the inner whitespace of
        the entity,
-     - a standalone comment without its final newline at the end of the file.
+     - a standalone comment without its final newline at the end of the file,
+     - a garbage region at the end of the file whose last line has no newline.
    The statement is the same: the walk yields exactly the entries computed from the blocks. *)
 From Coq Require Import NArith List Bool Arith Lia.
 From CL Require Import Base.Sx Base.Res Base.Str Regex.Rx Regex.RxLemmas Model.Entry Model.Parse
   Model.ParseFormats Generated.RxParser Proofs.UnescapeProofs
   Proofs.ClassLoop Proofs.ClassLoop2 Proofs.C02Props Proofs.WalkProofs Proofs.C02Roundtrip
-  Proofs.C02BlocksRx Proofs.C02BlocksVal Proofs.C02Blocks Proofs.C02BlocksJunkRx Proofs.C02BlocksJunk.
+  Proofs.C02BlocksRx Proofs.C02BlocksIniRx Proofs.C02BlocksVal Proofs.C02Blocks Proofs.C02BlocksJunkRx
+  Proofs.C02BlocksJunk.
+From CL Require Proofs.C02BlocksDtdJunk.
 Import ListNotations.
 
 Local Arguments Nat.ltb : simpl never.
@@ -323,6 +326,68 @@ Proof.
     rewrite Ek. unfold mspan. cbn [m_start m_end]. rewrite EL. reflexivity.
 Qed.
 
+(* ---- garbage that ends the file without a newline --------------------------------------------------------- *)
+Definition legal_garbage_eof (gl : list str) (lg : str) : bool :=
+  forallb legal_gline gl && legal_gline lg && negb (is_nil lg) &&
+  negb (head_is (fun c => mem c WS) (gtext gl ++ lg)).
+
+Lemma geof_attempts : forall gl lg i pr p,
+  forallb legal_gline gl = true -> legal_gline lg = true -> i < length (gtext gl ++ lg) ->
+  run_at rx_props_key (mkst pr (skipn i (gtext gl ++ lg) ++ []) p []) (fun _ => true) = MNone /\
+  run_at rx_props_comment (mkst pr (skipn i (gtext gl ++ lg) ++ []) p []) (fun _ => true) = MNone.
+Proof.
+  intros gl lg i pr p Hgl Hlg Hi. rewrite app_nil_r.
+  destruct (Nat.lt_ge_cases i (length (gtext gl))) as [Hlt|Hge].
+  - rewrite skipn_app_le by lia. split.
+    + apply key_attempt_fails_g; auto.
+    + apply comment_attempt_fails_g; auto.
+  - rewrite skipn_app, skipn_all2 by lia. cbn [app].
+    set (j := i - length (gtext gl)). rewrite app_length in Hi.
+    assert (Hj : j < length lg) by (unfold j; lia).
+    assert (Hl : no_chars GC (skipn j lg) = true).
+    { unfold legal_gline, no_chars in *. rewrite forallb_forall in *. intros x Hx. apply Hlg.
+      eapply In_skipn. exact Hx. }
+    split.
+    + rewrite run_at_k0. rewrite <- (app_nil_r (skipn j lg)).
+      rewrite key_fails_line; [reflexivity|apply gc_kc; exact Hl|left; reflexivity].
+    + destruct (skipn j lg) as [|c t] eqn:Es.
+      * apply (f_equal (@length N)) in Es. rewrite skipn_length in Es. simpl in Es. lia.
+      * rewrite run_at_k0, comment_fails; [reflexivity|]. eapply gc_cm; [exact Hl|left; reflexivity].
+Qed.
+
+Lemma gn_junk_eof : forall (a : str) gl lg,
+  legal_garbage_eof gl lg = true ->
+  gn_properties (a ++ gtext gl ++ lg) (length a) =
+  mk_junk (length a, length a + length (gtext gl ++ lg)).
+Proof.
+  intros a gl lg Hg. unfold legal_garbage_eof in Hg.
+  repeat (apply andb_true_iff in Hg; let H := fresh "L" in destruct Hg as [Hg H]).
+  rename Hg into Hgl. apply negb_true_iff in L. apply negb_true_iff in L0.
+  set (G := gtext gl ++ lg) in *.
+  assert (Hpos : 1 <= length G).
+  { unfold G. rewrite app_length. destruct lg; [discriminate|simpl; lia]. }
+  assert (Es : a ++ G = a ++ G ++ []) by (rewrite app_nil_r; reflexivity).
+  rewrite Es. set (s := a ++ G ++ []).
+  pose proof (fun i pr p (Hi : i < length G) => geof_attempts gl lg i pr p Hgl L1 Hi) as Hatt.
+  destruct (Hatt 0 (rev a) (length a) ltac:(lia)) as [K0 C0]. cbn [skipn] in K0, C0. fold G in K0, C0.
+  assert (Ec : omatch rx_props_comment s (length a) = None) by (unfold s; rewrite omatch_split, C0; reflexivity).
+  assert (Ew : omatch rx_props_ws s (length a) = None).
+  { unfold s. apply omatch_ws_none. rewrite app_nil_r. exact L. }
+  assert (Ek : omatch rx_props_key s (length a) = None) by (unfold s; rewrite omatch_split, K0; reflexivity).
+  unfold gn_properties, get_next_properties. fold s. rewrite Ec, Ew, Ek.
+  assert (Sk := C02BlocksDtdJunk.search_from_region rx_props_key a G []
+                  (fun i Hi => proj1 (Hatt i _ _ Hi)) Hpos).
+  assert (Sc := C02BlocksDtdJunk.search_from_region rx_props_comment a G []
+                  (fun i Hi => proj2 (Hatt i _ _ Hi)) Hpos).
+  assert (Nk : osearch rx_props_key s (S (length a)) = None).
+  { unfold osearch, s. rewrite Sk, search_from_S. cbv beta iota. cbn [suf].
+    change (fun s' : st => true) with (fun _ : st => true). rewrite key_nil_fails. reflexivity. }
+  assert (Nc : osearch rx_props_comment s (S (length a)) = None).
+  { unfold osearch, s. rewrite Sc, search_from_S. cbv beta iota. cbn [suf].
+    change (fun s' : st => true) with (fun _ : st => true). rewrite comment_nil_fails. reflexivity. }
+  rewrite get_junk_eof by auto. unfold s. rewrite !app_length. simpl. rewrite Nat.add_0_r. reflexivity.
+Qed.
+
 (* ---- blocks --------------------------------------------------------------------------------------------- *)
 Inductive xblock :=
 | XBlank (w : str)
@@ -331,7 +396,9 @@ Inductive xblock :=
 | XEntity (cs : list cline) (iw : str) (key b1 : str) (sc : N) (b2 : str) (conts : list str)
           (lastl tb : str) (nl : bool)
       (* attached comment lines, indentation [iw], key sep value, trailing blanks [tb], newline *)
-| XGarbage (gl : list str).
+| XGarbage (gl : list str)
+| XGarbageEof (gl : list str) (lg : str).
+      (* garbage at the end of the file; its last line [lg] has no newline *)
 
 Definition xtext (b : xblock) : str :=
   match b with
@@ -340,6 +407,7 @@ Definition xtext (b : xblock) : str :=
   | XEntity cs iw key b1 sc b2 conts lastl tb nl =>
       ctext cs ++ iw ++ key ++ b1 ++ sc :: b2 ++ vraw conts lastl ++ tb ++ eol nl
   | XGarbage gl => gtext gl
+  | XGarbageEof gl lg => gtext gl ++ lg
   end.
 Definition xfile_text (bs : list xblock) : str := concat (map xtext bs).
 
@@ -352,6 +420,7 @@ Definition legal_xblockb (b : xblock) : bool :=
       legal_key key && legal_sep b1 sc b2 && legal_value conts lastl && is_tb tb &&
       negb (head_is (fun c => mem c BL) (vraw conts lastl ++ tb))
   | XGarbage gl => legal_garbage gl
+  | XGarbageEof gl lg => legal_garbage_eof gl lg
   end.
 Definition legal_xblock (b : xblock) : Prop := legal_xblockb b = true.
 
@@ -375,6 +444,7 @@ Fixpoint xsep (bs : list xblock) : bool :=
       | [] | XComment _ true :: _ | XEntity _ _ _ _ _ _ _ _ _ _ :: _ => true
       | _ => false
       end && xsep rest
+  | XGarbageEof _ _ :: rest => is_nil rest
   end.
 
 Definition xlicense_okb (bs : list xblock) : bool :=
@@ -409,6 +479,9 @@ Fixpoint xents (off w : nat) (bs : list xblock) : list entry :=
   | XGarbage gl :: rest =>
       let a := off + w in
       flush off w ++ mk_junk (a, a + length (gtext gl)) :: xents (a + length (gtext gl)) 0 rest
+  | XGarbageEof gl lg :: rest =>
+      let a := off + w in
+      flush off w ++ mk_junk (a, a + length (gtext gl ++ lg)) :: xents (a + length (gtext gl ++ lg)) 0 rest
   end.
 Definition xentries_of (bs : list xblock) : list entry := xents 0 0 bs.
 
@@ -434,6 +507,12 @@ Example xx_eof :
   let bs := [xx_c; XBlank (A [10]); xx_e3] in
   Forall legal_xblock bs /\ xadjacent_ok bs /\ walk_properties (xfile_text bs) = Ok (xentries_of bs).
 Proof. split; [repeat constructor|]. split; vm_compute; reflexivity. Qed.
+Example xx_geof :
+  let bs := [xx_e1; XBlank (A [10]); XGarbageEof [A [103]; []] (A [32; 120])] in
+  Forall legal_xblock bs /\ xadjacent_ok bs /\ walk_properties (xfile_text bs) = Ok (xentries_of bs) /\
+  map (fun e => (e_kind e, e_span e)) (xentries_of bs) =
+  [(KEntity, (0, 3)); (KWhitespace, (3, 6)); (KJunk, (6, 11))].
+Proof. split; [repeat constructor|]. split; [vm_compute; reflexivity|]. split; vm_compute; reflexivity. Qed.
 
 (* ---- the walk ---------------------------------------------------------------------------------------------- *)
 Definition xstmt (bs : list xblock) (a w : str) : Prop :=
@@ -448,7 +527,7 @@ Definition xnonblank_head (bs : list xblock) : Prop :=
 Lemma xents_flush : forall bs off w, xnonblank_head bs ->
   xents off w bs = flush off w ++ xents (off + w) 0 bs.
 Proof.
-  intros [|[x|cs nl|cs iw key b1 sc b2 conts lastl tb nl|gl] rest] off w H; try contradiction; simpl;
+  intros [|[x|cs nl|cs iw key b1 sc b2 conts lastl tb nl|gl|gl lg] rest] off w H; try contradiction; simpl;
     rewrite ?Nat.add_0_r, ?app_nil_r; reflexivity.
 Qed.
 
@@ -501,7 +580,7 @@ Lemma xjunk_after_rest : forall rest, Forall legal_xblock rest -> xsep rest = tr
   | _ => false
   end = true -> junk_after (xfile_text rest).
 Proof.
-  intros [|[x|cs [|]|cs iw key b1 sc b2 conts lastl tb nl|gl] rest'] Hleg Hsep Hshape; try discriminate.
+  intros [|[x|cs [|]|cs iw key b1 sc b2 conts lastl tb nl|gl|gl lg] rest'] Hleg Hsep Hshape; try discriminate.
   - constructor.
   - (* a comment block: what follows it is the end of the file or whitespace *)
     inversion Hleg as [|? ? Hb Hrest]; subst. unfold legal_xblock in Hb. cbn [legal_xblockb] in Hb.
@@ -509,7 +588,7 @@ Proof.
     rewrite xfile_text_cons. cbn [xtext]. constructor; auto.
     + destruct cs; [discriminate|discriminate].
     + simpl in Hsep. apply andb_true_iff in Hsep. destruct Hsep as [Hnext _].
-      destruct rest' as [|[x| | |] rest'']; try discriminate; [reflexivity|].
+      destruct rest' as [|[x| | | |] rest'']; try discriminate; [reflexivity|].
       rewrite xfile_text_cons. cbn [xtext].
       inversion Hrest as [|? ? Hx _]; subst. unfold legal_xblock in Hx. cbn [legal_xblockb] in Hx.
       apply andb_true_iff in Hx. destruct Hx as [Hx1 Hx2].
@@ -545,7 +624,7 @@ Proof.
   - apply xlift_flush; [exact I|reflexivity|].
     intros a _ fuel Hf. simpl. apply walk_loop_done. rewrite !app_length. simpl. lia.
   - inversion Hleg as [|b' rest' Hb Hrest]; subst b' rest'.
-    destruct b as [x|cs nl|cs iw key b1 sc b2 conts lastl tb nl|gl].
+    destruct b as [x|cs nl|cs iw key b1 sc b2 conts lastl tb nl|gl|gl lg].
     + (* whitespace: joins what is pending *)
       intros a w Hw Hlic fuel Hf. simpl in Hsep.
       unfold legal_xblock in Hb. cbn [legal_xblockb] in Hb. apply andb_true_iff in Hb.
@@ -569,7 +648,7 @@ Proof.
         assert (Hafter : xfile_text rest = [] \/
                   exists x y, xfile_text rest = x ++ y /\ forallb (fun c => mem c WS) x = true /\
                               mem 10%N x = true).
-        { destruct rest as [|[x| | |] rest']; try discriminate; [left; reflexivity|].
+        { destruct rest as [|[x| | | |] rest']; try discriminate; [left; reflexivity|].
           right. exists x, (xfile_text rest'). split; [reflexivity|]. split; [|exact Hnext].
           inversion Hrest as [|b' r' Hx _]; subst. unfold legal_xblock in Hx. cbn [legal_xblockb] in Hx.
           apply andb_true_iff in Hx. destruct Hx as [_ Hx]. exact Hx. }
@@ -589,7 +668,7 @@ Proof.
               rewrite !app_length in *. simpl in *. lia.
       * (* without it: the end of the file *)
         assert (Er : rest = []).
-        { destruct rest as [|[x| | |] rest']; try discriminate; reflexivity. }
+        { destruct rest as [|[x| | | |] rest']; try discriminate; reflexivity. }
         subst rest.
         apply xlift_flush; [exact I| rewrite xfile_text_cons; apply head_cbody; auto |].
         intros a _ fuel Hf. destruct fuel as [|f]; [lia|].
@@ -663,6 +742,26 @@ Proof.
         apply (IH Hrest Hsep); [reflexivity| |].
         -- intros E. apply app_eq_nil in E. destruct E as [_ E]. rewrite E in Hpos. simpl in Hpos. lia.
         -- rewrite <- Hs. rewrite !app_length in *. lia.
+    + (* garbage that ends the file *)
+      unfold legal_xblock in Hb. cbn [legal_xblockb] in Hb. cbn [xsep] in Hsep.
+      assert (Er : rest = []) by (destruct rest; [reflexivity|discriminate]). subst rest.
+      assert (Hh : head_is (fun c => mem c WS) (gtext gl ++ lg) = false).
+      { unfold legal_garbage_eof in Hb. apply andb_true_iff in Hb. destruct Hb as [_ Hb].
+        apply negb_true_iff in Hb. exact Hb. }
+      assert (Hpos : 1 <= length (gtext gl ++ lg)).
+      { unfold legal_garbage_eof in Hb. apply andb_true_iff in Hb. destruct Hb as [Hb _].
+        apply andb_true_iff in Hb. destruct Hb as [_ Hb]. rewrite app_length.
+        destruct lg; [discriminate|simpl; lia]. }
+      apply xlift_flush; [exact I| |].
+      { cbn [xfile_text map concat xtext]. rewrite app_nil_r. exact Hh. }
+      intros a _ fuel Hf. destruct fuel as [|f]; [lia|].
+      assert (Etxt : a ++ [] ++ xfile_text [XGarbageEof gl lg] = a ++ gtext gl ++ lg).
+      { cbn [xfile_text map concat xtext app]. rewrite app_nil_r. reflexivity. }
+      rewrite Etxt in *.
+      pose proof (gn_junk_eof a gl lg Hb) as G.
+      simpl xents. rewrite !Nat.add_0_r. rewrite <- G. apply walk_step.
+      * rewrite !app_length in *. lia.
+      * rewrite G. cbn [mk_junk e_span snd]. apply walk_loop_done. rewrite !app_length. lia.
 Qed.
 
 (* ---- the block theorem ------------------------------------------------------------------------------------- *)
@@ -694,6 +793,7 @@ Fixpoint xgarbage_of (bs : list xblock) : list str :=
   match bs with
   | [] => []
   | XGarbage gl :: rest => gtext gl :: xgarbage_of rest
+  | XGarbageEof gl lg :: rest => (gtext gl ++ lg) :: xgarbage_of rest
   | _ :: rest => xgarbage_of rest
   end.
 
@@ -713,7 +813,7 @@ Proof.
   - simpl xents. rewrite !flush_no by discriminate. repeat split.
   - inversion Hleg as [|b' rest' Hb Hrest]; subst b' rest'. specialize (IH Hrest).
     set (s := a ++ w ++ xfile_text (b :: rest)).
-    destruct b as [x|cs nl|cs iw key b1 sc b2 conts lastl tb nl|gl].
+    destruct b as [x|cs nl|cs iw key b1 sc b2 conts lastl tb nl|gl|gl lg].
     + assert (Hs : s = a ++ (w ++ x) ++ xfile_text rest).
       { unfold s. rewrite xfile_text_cons. cbn [xtext]. rewrite <- app_assoc. reflexivity. }
       simpl xents. rewrite <- app_length, Hs. apply IH.
@@ -779,6 +879,20 @@ Proof.
       cbn [app filter is_kind mk_junk e_kind map e_span]. rewrite I1, I2, I3.
       split; [reflexivity|split; [reflexivity|]]. cbn [xgarbage_of]. f_equal.
       assert (Hs' : s = (a ++ w) ++ gtext gl ++ xfile_text rest)
+        by (rewrite Hs; unfold A0; norm_app; reflexivity).
+      unfold span_text. cbn [fst snd]. rewrite <- El, <- app_length, Hs'. apply slice_mid.
+    + set (G := gtext gl ++ lg).
+      set (A0 := a ++ w ++ G).
+      assert (Hs : s = A0 ++ [] ++ xfile_text rest).
+      { unfold s, A0, G. rewrite xfile_text_cons. cbn [xtext]. norm_app. reflexivity. }
+      assert (El : length a + length w + length G = length A0)
+        by (unfold A0; rewrite !app_length; lia).
+      destruct (IH A0 []) as [I1 [I2 I3]]. rewrite <- Hs in I1, I2, I3.
+      change (length (@nil N)) with 0 in I1, I2, I3.
+      simpl xents. fold G. rewrite !filter_app, !flush_no by discriminate. rewrite El.
+      cbn [app filter is_kind mk_junk e_kind map e_span]. rewrite I1, I2, I3.
+      split; [reflexivity|split; [reflexivity|]]. cbn [xgarbage_of]. fold G. f_equal.
+      assert (Hs' : s = (a ++ w) ++ G ++ xfile_text rest)
         by (rewrite Hs; unfold A0; norm_app; reflexivity).
       unfold span_text. cbn [fst snd]. rewrite <- El, <- app_length, Hs'. apply slice_mid.
 Qed.
